@@ -403,7 +403,8 @@ func truncUint(x uint64, bits int) uint64 {
 // SV describes an argument expression: a script literal or a reference to a Go pool value.
 //
 //	K: "i" int64 literal, "f" float64 literal (bits), "s" string, "b" bool, "n" nil,
-//	   "l" list literal of L, "m" map literal MK[i]: L[i], "g" Go value (T, Seed) bound to a variable.
+//	   "l" list literal of L, "m" map literal MK[i]: L[i], "g" Go value (T, Seed) bound to a variable,
+//	   "p" pointer, I levels deep, to the Go value (T, Seed) (B: the typed nil pointer), bound to a variable.
 type SV struct {
 	K    string `json:"k"`
 	I    int64  `json:"i,omitempty"`
@@ -530,6 +531,36 @@ func (b *binder) renderBase(sv *SV) (string, reflect.Value) {
 			v = v.Elem()
 		}
 		// pass through interface{} exactly like env.Define does
+		v = reflect.ValueOf(v.Interface())
+		return b.bindGo(v), v
+	case "p":
+		// a pointer (I levels deep, 1..3) to a fresh variable holding the pool value (T, Seed); B: the
+		// typed nil pointer of that type instead. Only `ptrmix` draws it.
+		ti := sv.T
+		if ti < 0 || ti >= len(Pool) {
+			ti = 5
+		}
+		v := mkVal(ti, sv.Seed)
+		if v.Kind() == reflect.Interface {
+			if v.IsNil() {
+				v = reflect.ValueOf(int64(sv.Seed))
+			} else {
+				v = v.Elem()
+			}
+		}
+		depth := int(sv.I)
+		if depth < 1 || depth > 3 {
+			depth = 1
+		}
+		for d := 0; d < depth; d++ {
+			if sv.B && d == depth-1 {
+				v = reflect.Zero(reflect.PtrTo(v.Type()))
+				break
+			}
+			p := reflect.New(v.Type())
+			p.Elem().Set(v)
+			v = p
+		}
 		v = reflect.ValueOf(v.Interface())
 		return b.bindGo(v), v
 	}
